@@ -1,4 +1,4 @@
-// Counterexample found by mirsym/z3 for property C20, template cs_diseq_some_none: |x, y| { q == [x, y], Node(x, Some(Leaf(y))) != Node(p0, None), x == p0 } with parameters [-3]: reference answer 0 is missing from the engine's answers: the ground instance q = [-3, "zz2"] is a solution that no engine answer covers
+// Counterexample found by mirsym/z3 for property C20, template cs_diseq_some_none: |x, y| { q == [x, y], Node(x, Some(Leaf(y))) != Node(p0, None), x == p0 } with parameters [-3]: reference answer 0 is missing from the engine's answers: the ground instance q = [-3, 0] is a solution that no engine answer covers
 // Replay: /verif/check C20 --replay /verif/replay/cases/C20-cs_diseq_some_none_lost.rs
 #![allow(unused_imports, unused_variables, unused_mut)]
 use proto_vulcan::prelude::*;
@@ -119,10 +119,10 @@ fn body() {
     let p0: T = LTerm::from(-3);
     let query = proto_vulcan_query!(|q| {
         |x, y| { q == [x, y], Node(x, Some(Leaf(y))) != Node(p0, None), x == p0 },
-        q == [-3, "zz2"]
+        q == [-3, 0]
     });
     for _run in 0..30 {
     let n = query.run().take(LIMIT).count();
-    assert_eq!(n > 0, true, "q = [-3, \"zz2\"] must be a solution");
+    assert_eq!(n > 0, true, "q = [-3, 0] must be a solution");
     }
 }
